@@ -357,6 +357,18 @@ def oracle_c05(rows):
                                        % (oid, osl, len(named), ch)))
                     prev = snap
                     continue
+            # the private signing contexts are keyed by slate id alone: cancelling one entry must not take the
+            # context another, still pending entry with that slate id needs (both halves of an exchange within one
+            # wallet: a payment between two of its accounts, an invoice it pays itself)
+            if prev is not None and k == "cancel" and s["rc"] == [0] and "contexts" in prev and "contexts" in snap:
+                gone = [c for c in prev["contexts"] if c not in snap["contexts"]]
+                for c in gone:
+                    live = [(t["parent"], t["id"]) for t in snap["txs"]
+                            if t["slate"] == c and t["type"] in (1, 2) and not t["confirmed"]]
+                    if live:
+                        fails.append(_fail(r, idx, "cancel(id=%s, slate=%s) removed the private context of slate %s although entry %s with "
+                                                   "that slate id is still pending: it can no longer be finalized"
+                                           % (s["op"].get("id"), s["op"].get("slate"), c, live[0])))
             if prev is not None and k == "cancel" and s["op"].get("via_owner"):
                 # owner::cancel_tx updates the wallet state first (refresh, kernels, scan, expiry), so
                 # the snapshot diff is not the cancel's alone: the frame is the model's business here
